@@ -55,7 +55,9 @@ class ChannelList(gpp.UGenSequence, aob.AbstractSequence, list):
     ### UGen convenience methods (keep in sync with UGen) ###
 
     def _multichannel_perform(self, selector, *args):
-        l = [gpp.ugen_param(i) for i in self]
+        l = [
+            ChannelList(i) if isinstance(i, list) else gpp.ugen_param(i)
+            for i in self]
         l = [getattr(i[0], selector)(*i[1:]) for i in utl.flop([l, *args])]
         return type(self)(l)
 
